@@ -41,7 +41,8 @@ func drawLen(r *eng.Run, classes []lenClass, budget *int) int {
 }
 
 // validRunes used to build valid UTF-8 text of an exact byte length.
-var validRunes = []rune{'a', 'Z', ' ', 0x7f, 0x80, 0x7ff, 0x800, 0xfff, 0xd7ff, 0xe000, 0xffff, 0x10000, 0x10ffff, 'é', '世', '😀'}
+var validRunes = []rune{'a', 'Z', ' ', 0x7f, 0x80, 0x7ff, 0x800, 0xfff, 0xd7ff, 0xe000, 0xffff, 0x10000, 0x10ffff, 'é', '世', '😀',
+	0, 0xfffd /* the replacement character itself is valid */, 0xfffe, 0xfeff, 0xfdd0, 0x2028, 0x10fffe, 0x1000, 0xcfff, 0xd000, 0x3ffff, 0x40000, 0xfffff, 0x100000}
 
 // FillUTF8 fills p with valid UTF-8 of exactly len(p) bytes.
 func FillUTF8(p []byte, seed uint32) {
